@@ -71,6 +71,20 @@ def hwm(res, src):
     return mx
 
 
+def deploy_hwm(res, src):
+    """High-water mark of concurrently open run-time deployments of a plugin source."""
+    open_conns, mx = set(), 0
+    for e in res.get("events") or []:
+        if e["src"] != src:
+            continue
+        if e["kind"] == "deploy-ok" and mon._nth(e) >= 2:
+            open_conns.add(e["conn"])
+            mx = max(mx, len(open_conns))
+        elif e["kind"] == "conn-close":
+            open_conns.discard(e["conn"])
+    return mx
+
+
 def monitor(case, res, sem):
     vs = [v for v in mon.monitor_run(case, res, sem) if v.prop in ("C03", "C02", "C04", "C08")]
     out = []
@@ -98,8 +112,8 @@ def run(check):
     # cancellation while the loop is in progress: every item hangs until cancelled
     for i in range(check.pick(30, 200)):
         rng = random.Random(derive_seed(check.seed, "c13-cancel", i))
-        nn = rng.choice([2, 3, 7])
-        par = rng.choice([1, 2, nn])
+        nn = rng.choice([3, 7, 12])
+        par = rng.choice([1, 2, 3])
         sub = gen.sub_program("sub.yaml", 1)
         fe = Step("loop", "foreach", sub=sub, items=Expr(In("items")), parallelism=par)
         prog = Program([fe], {"success": {"d": Expr(Ref("loop", "outputs", "success", "data"))}, "failed": {"e": Expr(Ref("loop", "failed", "error"))}}, gen.BASE_INPUT)
@@ -140,11 +154,12 @@ def run(check):
             h = hwm(res, g["first_src"])
             if h > g["par"]:
                 check.report("loop@parallelism-exceeded", "%d item executions open at once, parallelism %d (%s)" % (h, g["par"], g["shape"]), {"case": case, "result": runfam.strip(res)})
-            # no item finishes before the cancellation (all hang), so at most `parallelism` item runs may ever have started:
-            # each started item run deploys the sub-workflow's plugin once
-            started = len([e for e in res.get("events") or [] if e["kind"] == "deploy-call" and e["src"] == g["first_src"] and mon._nth(e) >= 2])
-            if started > g["par"]:
-                check.report("loop@items-started-beyond-parallelism", "%d item runs were started although no item had finished and parallelism is %d (%s)" % (started, g["par"], g["shape"]),
+            # every item run holds its parallelism slot from before it deploys the sub-workflow's plugin until after that
+            # plugin is closed, so never more than `parallelism` deployments of the sub-step may be open at once - also
+            # while the loop is being cancelled (items that were queued may still start once a slot is released)
+            dh = deploy_hwm(res, g["first_src"])
+            if dh > g["par"]:
+                check.report("loop@item-runs-beyond-parallelism", "%d item runs (deployments of the sub-workflow step) were open at once during cancellation, parallelism %d (%s)" % (dh, g["par"], g["shape"]),
                              {"case": case, "result": runfam.strip(res)})
             check.nontrivial(g["shape"])
             continue
@@ -157,6 +172,10 @@ def run(check):
                 check.report("loop@parallelism-exceeded", "%d item executions open at once, parallelism %d (%s)" % (h, g["par"], g["shape"]), {"case": case, "result": runfam.strip(res)})
             if h == g["par"] and g["par"] > 1:
                 stats["hwm_equal_parallelism"] += 1
+            dh = deploy_hwm(res, g["first_src"])
+            if dh > g["par"]:
+                check.report("loop@item-runs-beyond-parallelism", "%d item runs (deployments of the sub-workflow's first step) were open at once, parallelism %d (%s)" % (dh, g["par"], g["shape"]),
+                             {"case": case, "result": runfam.strip(res)})
         if case.get("triggers"):
             stats["out_of_order_runs"] += 1
         stats["success_results" if run.get("out_id") == "success" else "failure_results"] += 1
